@@ -19,7 +19,8 @@ from formatting_shim import to_pascal
 
 THEOREMS = ["Yardl.C07.cpp_writer_iff", "Yardl.C07.py_writer_iff", "Yardl.C07.cpp_reader_iff", "Yardl.C07.py_reader_iff", "Yardl.C07.abandoned_stream_blocks_the_reader",
             "Yardl.C07.spec_close_cpp_writer", "Yardl.C07.spec_out_of_order_write_cpp", "Yardl.C07.spec_close_cpp_reader",
-            "Yardl.C07.spec_close_py_reader", "Yardl.C07.matlab_writer_iff", "Yardl.C07.matlab_reader_iff", "Yardl.C07.spec_matlab_reader"]
+            "Yardl.C07.spec_close_py_reader", "Yardl.C07.matlab_writer_iff", "Yardl.C07.matlab_reader_iff", "Yardl.C07.spec_matlab_reader",
+            "Yardl.C07.cpp_writer_with_failing_writes_iff", "Yardl.C07.py_writer_with_failing_writes_iff", "Yardl.C07.failed_write_keeps_the_implicit_end"]
 
 
 def shapes(rng, quick):
@@ -53,6 +54,8 @@ CPP_HEAD = r'''
 #include <vector>
 #include "protocols.h"
 static std::vector<bool> script; static size_t script_pos;
+struct InjectedFault {}; static bool fail_next = false;   // the implementation of the next write raises (not a std::exception)
+static void maybe_fail() { if (fail_next) { fail_next = false; throw InjectedFault{}; } }
 static bool next_outcome() { return script_pos < script.size() ? script[script_pos++] : false; }
 '''
 
@@ -62,7 +65,7 @@ def cpp_driver(shps):
     for k, shp in enumerate(shps):
         src.append(f"struct W{k} : st::P{k}WriterBase {{")
         for i, stm in enumerate(shp):
-            src.append(f"  void WriteS{i}Impl(int32_t const&) override {{}}")
+            src.append(f"  void WriteS{i}Impl(int32_t const&) override {{ maybe_fail(); }}")
             if stm:
                 src.append(f"  void EndS{i}Impl() override {{}}")
         src.append("  void CloseImpl() override {}\n};")
@@ -80,10 +83,11 @@ def cpp_driver(shps):
     src.append("  auto flag = [](std::string const& t) { return t.back() == '1'; };")
     for k, shp in enumerate(shps):
         src.append(f"  if (k == {k} && kind == \"W\") {{ W{k} w; int32_t v = 1; std::vector<int32_t> vs{{1, 2}}; std::vector<int32_t> ve; for (size_t n = 0; n < toks.size(); n++) {{ try {{")
-        src.append("      char c = toks[n][0]; int i = c == 'c' ? -1 : arg(toks[n]);")
+        src.append("      char c = toks[n][0]; int i = c == 'c' ? -1 : arg(toks[n]); fail_next = false;")
         src.append("      if (c == 'c') w.Close();")
         for i, stm in enumerate(shp):
             src.append(f"      else if (c == 'w' && i == {i}) w.WriteS{i}(v);")
+            src.append(f"      else if (c == 'f' && i == {i}) {{ fail_next = true; try {{ w.WriteS{i}(v); }} catch (InjectedFault const&) {{}} if (fail_next) throw std::runtime_error(\"the implementation was not reached although the call returned\"); }}")
             if stm:
                 src.append(f"      else if (c == 'b' && i == {i}) w.WriteS{i}(vs);")
                 src.append(f"      else if (c == 'z' && i == {i}) w.WriteS{i}(ve);")
@@ -111,11 +115,21 @@ sys.path.insert(0, sys.argv[1])
 import st
 from st import protocols as P
 
+class InjectedFault(Exception):
+    pass
+
+FAIL = [False]
+
+def maybe_fail():
+    if FAIL[0]:
+        FAIL[0] = False
+        raise InjectedFault()
+
 def mk_writer(k, shape):
     base = getattr(P, f"P{k}WriterBase")
     ns = {"_close": lambda self: None, "_end_stream": lambda self: None}
     for i in range(len(shape)):
-        ns[f"_write_s{i}"] = (lambda self, v: [None for _ in v]) if shape[i] else (lambda self, v: None)
+        ns[f"_write_s{i}"] = (lambda self, v: (maybe_fail(), [None for _ in v])) if shape[i] else (lambda self, v: maybe_fail())
     return type(f"W{k}", (base,), ns)()
 
 def mk_reader(k, shape):
@@ -134,8 +148,19 @@ for line in sys.stdin:
         w = mk_writer(k, shapes[k])
         for n, tok in enumerate(toks):
             try:
+                FAIL[0] = False
                 if tok == "c":
                     w.close()
+                elif tok[0] == "f":
+                    # a write whose implementation raises: not a rejection; the writer is used further
+                    i = int(tok[1:])
+                    FAIL[0] = True
+                    try:
+                        getattr(w, f"write_s{i}")(1 if not shapes[k][i] else [1, 2])
+                    except InjectedFault:
+                        pass
+                    if FAIL[0]:
+                        raise RuntimeError("the implementation was not reached although the call returned")
                 else:
                     i = int(tok[1:])
                     arg = 1 if not shapes[k][i] else [] if tok[0] == "z" else (x for x in [1]) if tok[0] == "g" else [1, 2]
@@ -190,6 +215,8 @@ def gen_seq(rng, machine, shape, length):
                 seq.append(["c"])
             elif machine == "cppW" and r < 0.4:
                 seq.append(["e", i]); pos = i + 1
+            elif r > 0.86:
+                seq.append(["f", i])          # the implementation of this write raises; the writer is used further
             else:
                 seq.append(["w", i]); pos = i if shape[i] else i + 1
         elif machine == "cppR":
@@ -314,9 +341,9 @@ def run(report, tier, seed):
                     alpha = [["c"]]
                     for i in range(n):
                         if machine == "cppW":
-                            alpha += [["w", i]] + ([["e", i]] if shape[i] else [])
+                            alpha += [["w", i], ["f", i]] + ([["e", i]] if shape[i] else [])
                         elif machine == "pyW":
-                            alpha += [["w", i]]
+                            alpha += [["w", i], ["f", i]]
                         elif machine == "cppR":
                             alpha += [["r", i, True], ["r", i, False]] + ([["B", i, True], ["B", i, False]] if shape[i] else [])
                         else:
